@@ -17,7 +17,9 @@ RULE = ("histories of add_class(append/prepend) / remove_class / add_style over 
 ASSUMPTIONS = ["tokens are whitespace-free after stripping (the statement's scope); css() values are scalars"]
 SHARDS = {"quick": 1, "thorough": 16}
 
-TOKENS = ["foo", "foobar", "foo-x", "x-foo", "fo", "o", "bar", "Foo", "a&b"]
+TOKENS = ["foo", "foobar", "foo-x", "x-foo", "fo", "o", "bar", "Foo", "a&b",
+          # characters that mean something to glob / regular-expression matching are ordinary token characters
+          "fo?", "f*", "[fo]o", "foo.", "fo.", "(foo)", "foo|bar", "^foo", "foo$", "f\\oo", "w-[100px]", "fo+", "{foo}"]
 DECOR = [lambda t: t, lambda t: " " + t, lambda t: t + " ", lambda t: "\t" + t + "\n", lambda t: "  " + t + "  "]
 INITIAL = [None, "", " ", "foo", "foo bar", "  foo   foobar ", "foo\tfo\no", "foo foo", "x-foo foo-x foo", "o fo foo foobar"]
 
